@@ -1,7 +1,14 @@
 (** C09 – spelling algebra and the prism preserve the spelling-to-syllable relation.
-    Property theorems only; each closed by [exact] of a lemma proved elsewhere. *)
+    Property theorems only; each closed by [exact] of a lemma proved in
+    Dict/AlgebraProofs.v or Dict/PrismProofs.v.
+
+    Throughout, a calculation is a record [mkCalc kind apply] whose [apply] – the
+    effect of boost::regex / the xlit map on one string – is an ARBITRARY function
+    [bytes -> option spelling]; the theorems hold for all of them, for all
+    syllabaries and all rule lists (induction over the lists). *)
 From Coq Require Import List Arith ZArith.
-From RimeV Require Import Base.Bytes Dict.Algebra Dict.PrismModel Dict.AlgebraProofs.
+From Coq.Strings Require Import Byte.
+From RimeV Require Import Base.Bytes Dict.Algebra Dict.PrismModel Dict.AlgebraProofs Dict.PrismProofs.
 Import ListNotations.
 
 (** The non-deleting rule kinds are exactly derive, fuzz and abbrev (calculus.h). *)
@@ -9,3 +16,200 @@ Theorem C09_non_deleting_kinds :
   forall k, kind_deletion k = false <-> (k = Derive \/ k = Fuzz \/ k = Abbrev).
 Proof. exact kind_flags_non_deleting. Qed.
 Print Assumptions C09_non_deleting_kinds.
+
+(** Every script the algebra produces from a syllabary is a well-formed std::map:
+    keys strictly increasing in std::string order. *)
+Theorem C09_script_sorted :
+  forall syls calcs, script_ok (project_script calcs (init_script syls)).
+Proof. exact script_always_sorted. Qed.
+Print Assumptions C09_script_sorted.
+
+(** (a) Every spelling of the resulting table denotes at least one syllable, all its
+    syllables belong to the syllabary, and the spelling is not the empty string. *)
+Theorem C09_denotes_some_syllable :
+  forall syls calcs k l,
+  (forall s, In s syls -> s <> []) ->
+  map_find k (project_script calcs (init_script syls)) = Some l ->
+  k <> [] /\ l <> [] /\ forall x, In x l -> In (sstr x) syls.
+Proof. exact denotes_some_syllable. Qed.
+Print Assumptions C09_denotes_some_syllable.
+
+(** (b) A non-deleting rule (derive, fuzz, abbrev) removes no existing (spelling,
+    syllable) pair – and leaves its type no worse and its credibility no lower.
+    For any script whatsoever. *)
+Theorem C09_additive_rule_keeps :
+  forall c sc k l x,
+  deletion c = false -> map_find k sc = Some l -> In x l ->
+  exists l' x', map_find k (round c sc) = Some l' /\ In x' l' /\ le_sp x' x.
+Proof. exact additive_rule_keeps. Qed.
+Print Assumptions C09_additive_rule_keeps.
+
+Theorem C09_additive_rules_keep :
+  forall calcs sc k l x,
+  (forall c, In c calcs -> deletion c = false) ->
+  map_find k sc = Some l -> In x l ->
+  exists l' x', map_find k (project_script calcs sc) = Some l' /\ In x' l' /\ le_sp x' x.
+Proof. exact additive_rules_keep. Qed.
+Print Assumptions C09_additive_rules_keep.
+
+(** (c) One round: a (spelling, syllable) pair disappears only if the rule is a
+    deleting one and matched the spelling. *)
+Theorem C09_round_loses_only_if_matched :
+  forall c sc k l x,
+  map_find k sc = Some l -> In x l ->
+  ~ spells (round c sc) k (sstr x) ->
+  deletion c = true /\ capply c k <> None.
+Proof. exact round_loses_only_if_matched. Qed.
+Print Assumptions C09_round_loses_only_if_matched.
+
+(** (c) A syllable stops being spellable by its own name only if a replacing or
+    erasing rule of the list matches that name. *)
+Theorem C09_own_name_lost_only_if_matched :
+  forall syls calcs s,
+  In s syls ->
+  ~ spells (project_script calcs (init_script syls)) s s ->
+  exists c, In c calcs /\ deletion c = true /\ capply c s <> None.
+Proof. exact own_name_lost_only_if_matched. Qed.
+Print Assumptions C09_own_name_lost_only_if_matched.
+
+(** ... and as long as no such rule matches it, it stays a normal spelling of
+    undiminished credibility. *)
+Theorem C09_own_name_stays_normal :
+  forall syls calcs s,
+  In s syls ->
+  (forall c, In c calcs -> matched_by_deleting s c = false) ->
+  exists l x, map_find s (project_script calcs (init_script syls)) = Some l /\ In x l /\
+              sstr x = s /\ ptype (sprops x) = kNormalSpelling /\ (0 <= pcred (sprops x))%Z.
+Proof. exact own_name_stays_normal. Qed.
+Print Assumptions C09_own_name_stays_normal.
+
+(** (d) Prism round trip, any script: for every spelling of the script GetValue
+    returns its rank in map order and QuerySpelling of that id returns exactly the
+    script's list (syllable id, type, credibility through the float cast, tips);
+    for every other string GetValue fails.  [fcast] is arbitrary. *)
+Theorem C09_prism_roundtrip :
+  forall (fcred : Type) (fcast : Z -> fcred) syls (sc : script),
+  let p := build fcred fcast syls (Some sc) in
+  (forall k l, map_find k sc = Some l -> l <> [] ->
+     exists i, get_value fcred p k = Some i /\ nth_error sc i = Some (k, l) /\
+               query_spelling fcred fcast p i = map (desc_of fcred fcast syls) l) /\
+  (forall k, map_find k sc = None -> get_value fcred p k = None).
+Proof. exact prism_roundtrip. Qed.
+Print Assumptions C09_prism_roundtrip.
+
+(** (d) The same for the prism compiled from a syllabary and a rule list
+    (dict_compiler.cc): every descriptor read back names, by its rank in the
+    syllabary, the syllable the script has at that position, with the same type,
+    credibility (cast) and tips. *)
+Theorem C09_prism_roundtrip_compiled :
+  forall (fcred : Type) (fcast : Z -> fcred) syls calcs sc,
+  (forall s, In s syls -> s <> []) ->
+  compile_script syls calcs = Some sc ->
+  let p := compile fcred fcast syls calcs in
+  (forall k l, map_find k sc = Some l ->
+     exists i, get_value fcred p k = Some i /\ nth_error sc i = Some (k, l) /\
+               Forall2 (desc_matches fcred fcast syls) (query_spelling fcred fcast p i) l) /\
+  (forall k, map_find k sc = None -> get_value fcred p k = None).
+Proof. exact prism_roundtrip_compiled. Qed.
+Print Assumptions C09_prism_roundtrip_compiled.
+
+(** (d) When the algebra does not apply (or erases everything) the prism is built from
+    the syllabary alone: every syllable is its own spelling. *)
+Theorem C09_prism_roundtrip_null :
+  forall (fcred : Type) (fcast : Z -> fcred) syls,
+  let p := build fcred fcast syls None in
+  (forall s i, nth_error syls i = Some s -> NoDup syls ->
+     get_value fcred p s = Some i /\
+     query_spelling fcred fcast p i = [mkDesc fcred i kNormalSpelling (fcast 0%Z) []]) /\
+  (forall s, ~ In s syls -> get_value fcred p s = None).
+Proof. exact prism_roundtrip_null. Qed.
+Print Assumptions C09_prism_roundtrip_null.
+
+(** (e) Exact-match search agrees with the key set: the id is the position of the key. *)
+Theorem C09_exact_match :
+  forall (fcred : Type) (p : prism fcred) key,
+  get_value fcred p key = index_of key (p_keys fcred p).
+Proof. exact get_value_index. Qed.
+Print Assumptions C09_exact_match.
+
+(** (e) Common-prefix search returns exactly the (id, length) of every non-empty prefix
+    of the query that is a key, shortest first. *)
+Theorem C09_common_prefix_exact :
+  forall (fcred : Type) (p : prism fcred) q,
+  common_prefix_search fcred p q = cps_spec (p_keys fcred p) q.
+Proof. exact common_prefix_exact. Qed.
+Print Assumptions C09_common_prefix_exact.
+
+Theorem C09_common_prefix_members :
+  forall keys q v m, NoDup keys ->
+  (In (v, m) (cps_spec keys q) <-> 1 <= m <= length q /\ nth_error keys v = Some (firstn m q)).
+Proof. exact cps_spec_In. Qed.
+Print Assumptions C09_common_prefix_members.
+
+(** (e) Expand search, as coded (FIFO queue, alphabet scan, early return at the limit):
+    it never runs out of the fuel the model gives it and returns [expand_spec] – the
+    query itself if it is a key, then level by level every key extending the query, in
+    lexicographic order of the stored (signed-char sorted) alphabet – cut at the limit
+    (0 = no limit). *)
+Theorem C09_expand_exact :
+  forall (fcred : Type) (p : prism fcred) q L,
+  wf_prism fcred p ->
+  expand_search_fuel fcred p q L =
+  (let all := expand_spec (p_keys fcred p) (p_alphabet fcred p) q
+                          (node_weight (walk q (trie_root (p_keys fcred p)))) in
+   if L =? 0 then all else firstn L all, true).
+Proof. exact expand_exact. Qed.
+Print Assumptions C09_expand_exact.
+
+Theorem C09_built_prism_wf :
+  forall (fcred : Type) (fcast : Z -> fcred) syls sc, wf_prism fcred (build fcred fcast syls sc).
+Proof. exact build_wf. Qed.
+Print Assumptions C09_built_prism_wf.
+
+(** (e) ... and the unlimited result contains exactly the keys extending the query. *)
+Theorem C09_expand_members :
+  forall (fcred : Type) (p : prism fcred) q v n,
+  wf_prism fcred p -> NoDup (p_keys fcred p) ->
+  (In (v, n) (expand_search fcred p q 0) <->
+   exists w, nth_error (p_keys fcred p) v = Some (q ++ w) /\ n = length (q ++ w)).
+Proof. exact expand_members. Qed.
+Print Assumptions C09_expand_members.
+
+(** Non-vacuity: a concrete syllabary {ba, bo, pa} with derive, fuzz, abbrev and erase
+    rules: the table, a syllable that lost its own name to the erase rule, one that
+    kept it, and the compiled prism's answers. *)
+Theorem C09_example_table :
+  AlgebraProofs.Example.result =
+  [ ([x62], [mkSp [x62; x61] (mkProps 2 (-1) []); mkSp [x70; x61] (mkProps 2 (-2) []);
+             mkSp [x62; x6f] (mkProps 2 (-1) [])]);
+    ([x62; x61], [mkSp [x62; x61] (mkProps 0 0 []); mkSp [x70; x61] (mkProps 1 (-1) [])]);
+    ([x70], [mkSp [x62; x61] (mkProps 2 (-1) []); mkSp [x70; x61] (mkProps 2 (-1) [])]);
+    ([x70; x61], [mkSp [x62; x61] (mkProps 0 0 []); mkSp [x70; x61] (mkProps 0 0 [])]) ].
+Proof. exact AlgebraProofs.Example.result_value. Qed.
+Print Assumptions C09_example_table.
+
+Theorem C09_example_own_name_lost :
+  ~ spells AlgebraProofs.Example.result [x62; x6f] [x62; x6f] /\
+  In AlgebraProofs.Example.c_erase AlgebraProofs.Example.rules /\
+  deletion AlgebraProofs.Example.c_erase = true /\
+  capply AlgebraProofs.Example.c_erase [x62; x6f] <> None.
+Proof. exact (conj AlgebraProofs.Example.bo_lost AlgebraProofs.Example.bo_matched). Qed.
+Print Assumptions C09_example_own_name_lost.
+
+Theorem C09_example_own_name_kept :
+  forall c, In c AlgebraProofs.Example.rules -> matched_by_deleting [x62; x61] c = false.
+Proof. exact AlgebraProofs.Example.ba_unmatched. Qed.
+Print Assumptions C09_example_own_name_kept.
+
+Theorem C09_example_prism :
+  get_value Z PrismExample.p [x62; x61] = Some 1 /\
+  query_spelling Z (fun c => c) PrismExample.p 1 = [mkDesc Z 0 0 0%Z []; mkDesc Z 2 1 (-1)%Z []] /\
+  get_value Z PrismExample.p [x62; x6f] = None /\
+  common_prefix_search Z PrismExample.p [x70; x61; x6f] = [(2, 1); (3, 2)] /\
+  expand_search_fuel Z PrismExample.p [] 0 = ([(0, 1); (2, 1); (1, 2); (3, 2)], true) /\
+  expand_search_fuel Z PrismExample.p [] 3 = ([(0, 1); (2, 1); (1, 2)], true).
+Proof.
+  exact (conj PrismExample.get_ba (conj PrismExample.query_ba (conj PrismExample.get_bo
+        (conj PrismExample.cps_pa (conj PrismExample.expand_empty PrismExample.expand_empty_3))))).
+Qed.
+Print Assumptions C09_example_prism.
